@@ -186,9 +186,72 @@ let do_ts kvs =
     (String.concat "," (List.map (fun b -> Printf.sprintf "%d:%d:%d" (int_of_nat b.b_path) (int_of_z b.b_mtime) (if b.b_dirty then 1 else 0)) tb))
     (String.concat "," (List.init nn show))
 
+(* aw names=<k> files=<n>:<hex>:<m>,...|- args=<n>,<n>... steps=<step>;<step>;...
+   one editing history with the autowrite option (coq/IoAwDefs.v step bufs_modified), the editor started on args[0].  Steps:
+     S@<0|1>                     :se noaw / :se aw
+     P@<hex>                     the current buffer is edited: the line <hex> is put in front, modified
+     F@...                       foreign operations as for gs
+     W@<x|!|x!|->@<arg>          :w :x [!] [path]
+     Q@<q|wq|x|xa>[!]@<arg>      :q :wq :x :xa
+     E@<arg>@<0|1>               :e [!] [path]
+     N                           :n  (the next of args, if there is one; the position moves when ec_edit returned 0)
+     B@<id>@<0|1>                :b [!] <id>  (ids are given in the order of loading, from 1)
+     X                           :!cmd  (a command that touches none of the names)
+     -                           nothing (a step the model does not see)
+   -> one word per step: <current name>:<quit 0|1>:<status of the step>:<name state>,<name state>,... *)
+let do_aw kvs =
+  let get k = try List.assoc k kvs with Not_found -> "-" in
+  let ios = int_of_string in
+  let nn = ios (get "names") in
+  let fs = List.map (fun w -> match String.split_on_char ':' w with
+      | [n; h; m] -> (nat_of_int (ios n), (bytes_of_hex h, z_of_int (ios m))) | _ -> failwith "files") (split_on ',' (get "files")) in
+  let args = List.map ios (split_on ',' (get "args")) in
+  let now = z_of_int 200 in
+  let arg_of a = if a = "-" || a = "" then ANone else if a = "%" then ACur else if a = "#" then AAlt else AName (nat_of_int (ios a)) in
+  let s0 = start [] fs (nat_of_int (List.hd args)) in
+  let cur s = match s.e_tb with (b, _) :: _ -> int_of_nat b.b_path | [] -> -1 in
+  let note ids s = if List.mem_assoc (cur s) ids then ids else ids @ [(cur s, List.length ids + 1)] in
+  let show s i = match fs_content s.e_fs (nat_of_int i) with Some c -> hex_of_bytes c | None -> "absent" in
+  let word s = Printf.sprintf "%d:%d:%s:%s" (cur s) (if s.e_quit then 1 else 0)
+      (match s.e_st with SOk -> "ok" | SRefused -> "refused" | SFailed -> "failed") (String.concat "," (List.init nn (show s))) in
+  let (_, _, _, out) = List.fold_left (fun (s, ids, npos, out) stp ->
+      let run1 c = step bufs_modified s c in
+      let (s', npos') = match String.split_on_char '@' stp with
+        | ["S"; v] -> (run1 (ASet (v = "1")), npos)
+        | ["P"; h] -> (match s.e_tb with
+            | (b0, _) :: _ -> (run1 (AText (bytes_of_hex h :: b0.b_lines)), npos)
+            | [] -> (s, npos))
+        | ["F"; "w"; n; h; m] -> (run1 (AForeign (FWrite (nat_of_int (ios n), bytes_of_hex h, z_of_int (ios m)))), npos)
+        | ["F"; "r"; n; h; m] -> (run1 (AForeign (FReplace (nat_of_int (ios n), bytes_of_hex h, z_of_int (ios m)))), npos)
+        | ["F"; "t"; n; m] -> (run1 (AForeign (FTouch (nat_of_int (ios n), z_of_int (ios m)))), npos)
+        | ["F"; "d"; n] -> (run1 (AForeign (FRemove (nat_of_int (ios n)))), npos)
+        | ["W"; fl; a] -> (run1 (AWrite (now, String.contains fl 'x', String.contains fl '!', None, arg_of a, [])), npos)
+        | ["Q"; c; a] ->
+          let has ch = String.contains c ch in
+          (run1 (AQuit (now, (c.[0] = 'w' || c.[0] = 'x'), (c.[0] = 'x'), has 'a', has '!', arg_of a, [])), npos)
+        | ["E"; a; bang] -> (run1 (AEdit (now, bang = "1", arg_of a, [])), npos)
+        | ["N"] ->
+          (match List.nth_opt args (npos + 1) with
+           | Some n -> let s' = run1 (AEdit (now, false, AName (nat_of_int n), [])) in
+             (s', if s'.e_st = SOk && not s.e_quit then npos + 1 else npos)
+           | None -> (s, npos))
+        | ["B"; id; bang] ->
+          let slot = let rec find i = function
+              | [] -> 1000
+              | (b, _) :: r -> (match List.assoc_opt (int_of_nat b.b_path) ids with
+                  | Some k when k = ios id -> i | _ -> find (i + 1) r) in find 0 s.e_tb in
+          (run1 (ABuffer (now, bang = "1", nat_of_int slot, [])), npos)
+        | ["X"] -> (run1 (AExec (now, [], [])), npos)
+        | ["-"] -> (s, npos)
+        | _ -> failwith ("aw step " ^ stp) in
+      (s', note ids s', npos', word s' :: out)) (s0, note [] s0, 0, []) (split_on ';' (get "steps")) in
+  pr "%s\n" (String.concat " " (List.rev out))
+
 let () =
   iter_lines (fun l ->
     (match words l with
+    | "aw" :: kvs -> do_aw (List.map (fun w -> match String.index_opt w '=' with
+        | Some i -> (String.sub w 0 i, String.sub w (i + 1) (String.length w - i - 1)) | None -> (w, "")) kvs)
     | ["rw"; chunks; b; e; old] -> do_rw chunks b e old None
     | ["rw"; chunks; b; e; old; pos; c2] -> do_rw chunks b e old (Some (pos, c2))
     | ["sbuf"; lens] -> do_sbuf lens
